@@ -322,6 +322,7 @@ def C11(ctx):
 def C12(ctx):
     q = ctx.quick
     pipeline_mc(ctx, q)
+    fn_campaign(ctx, [("foldsize", 0)], [])        # bodies whose folded URI would not fit (arithmetic predicate)
     req_campaign(ctx, ([("fold", 0), ("fold", 1)] if q else [("fold", 1), ("fold", 2)]) + [("s3hash", 0)])
     return dict(
         rule="E: URL parameter lists x body parameter lists over names {a, b} x values {1, 2, empty} (incl. the same name in "
@@ -336,6 +337,7 @@ def C12(ctx):
 def C15(ctx):
     q = ctx.quick
     pipeline_mc(ctx, q)
+    fn_campaign(ctx, [("foldsize", 0)], [])
     req_campaign(ctx, [("passthru", 0), ("fold", 0)] + ([] if q else [("base", 1)]))
     logical_campaign(ctx, 400 if q else 20000)
     return dict(
